@@ -203,6 +203,27 @@ func c05Eval(c c05Case) (ok bool, sig, detail string) {
 	if now := locdom.Encode(loc); now != c.Loc && !c.Raw {
 		return false, "operand-modified", fmt.Sprintf("(%s).Reverse(%d) changed its receiver: it now reads %s", c.Loc, L, printLoc(loc))
 	}
+	// non-initial representation: the record is a GenBank record whose ORIGIN was decoded by an earlier read
+	// (short records are where the two forms of the buffer can be confused); Reverse of it must mirror the
+	// residues and give the feature the location judged above
+	if L <= 13 && !c.Raw && allLetters(res) {
+		var out gts.Sequence
+		if p, msg := engine.Safely(func() {
+			out = gts.Reverse(decodedGenBank(res, gts.FeatureSlice{{Key: key, Loc: loc, Props: hostProps(0)}}))
+		}); p {
+			return false, "panic", fmt.Sprintf("Reverse of a decoded GenBank record with %s panics: %s", loc, msg)
+		}
+		wantRes := cloneBytes(res)
+		for a, b := 0, len(wantRes)-1; a < b; a, b = a+1, b-1 {
+			wantRes[a], wantRes[b] = wantRes[b], wantRes[a]
+		}
+		if got := out.Bytes(); string(got) != string(wantRes) || gts.Len(out) != L {
+			return false, "reverse-decoded-genbank", fmt.Sprintf("Reverse of a GenBank record of %d residues whose ORIGIN was already decoded: residues %q (Len %d), want %q", L, got, gts.Len(out), wantRes)
+		}
+		if ff := out.Features(); len(ff) != 1 || printLoc(ff[0].Loc) != printLoc(rev) {
+			return false, "reverse-decoded-genbank", fmt.Sprintf("Reverse of a GenBank record of %d residues whose ORIGIN was already decoded: feature %s became %v, but (%s).Reverse(%d) = %s", L, loc, ff, loc, L, printLoc(rev))
+		}
+	}
 	// (b) involutions on locations
 	var rr, cc gts.Location
 	if p, msg := engine.Safely(func() { rr = rev.Reverse(L); cc = loc.Complement().Complement() }); p {
